@@ -258,6 +258,10 @@ class Model:
         self._orig_cache = {}
         self._in_progress = set()
         self._cycle_hits = 0
+        self._prov = {}
+        self._prov_changed = False
+        self._tmp_nodes = {}
+        self._alive = {}
         self.paramvals = defaultdict(set)  # (Func, param) -> set(origins)
         self.api_funcs = set()
         self.fed = set()
@@ -673,21 +677,58 @@ class Model:
         return None
 
     def origins_of(self, scope, expr, depth=0):
-        """Set of origins (unexpanded: may contain ('param', f, name) placeholders)."""
+        """Set of origins (unexpanded: may contain ('param', f, name) placeholders).
+
+        Value flow is cyclic (a variable fed from a call whose argument is fed from the variable ...).  A query that runs into
+        a key already being evaluated reads that key's *provisional* value; the outermost query is repeated until no
+        provisional value changes.  All operations are unions, so this chaotic iteration reaches the least fixed point and
+        the answer does not depend on the order in which sets happen to be iterated (which follows object addresses)."""
         key = (id(scope), id(expr))
         if key in self._orig_cache:
             return self._orig_cache[key]
+        # keys are object identities: keep every queried node alive as long as results are cached, so that the identity
+        # of a freed temporary (a rule's rewritten expression, a synthetic node) is never taken over by another node
+        self._alive[key] = (scope, expr)
         if key in self._in_progress or depth > 40:
             self._cycle_hits += 1
-            return frozenset()
-        self._in_progress.add(key)
-        hits = self._cycle_hits
-        try:
-            res = frozenset(self._origins(scope, expr, depth))
-        finally:
-            self._in_progress.discard(key)
-        if hits == self._cycle_hits or not self._in_progress:
-            self._orig_cache[key] = res
+            return self._prov.get(key, frozenset())
+        if self._in_progress:
+            self._in_progress.add(key)
+            hits = self._cycle_hits
+            try:
+                res = frozenset(self._origins(scope, expr, depth))
+            finally:
+                self._in_progress.discard(key)
+            if hits == self._cycle_hits:
+                self._orig_cache[key] = res  # nothing provisional was read: exact
+            elif self._prov.get(key) != res:
+                self._prov[key] = res | self._prov.get(key, frozenset())
+                self._prov_changed = True
+            return res
+        # outermost query
+        self._prov = {}
+        res = frozenset()
+        for _round in range(60):
+            self._prov_changed = False
+            hits = self._cycle_hits
+            self._in_progress.add(key)
+            try:
+                res = frozenset(self._origins(scope, expr, depth))
+            finally:
+                self._in_progress.discard(key)
+            if hits == self._cycle_hits:
+                break
+            if self._prov.get(key) != res:
+                self._prov[key] = res | self._prov.get(key, frozenset())
+                self._prov_changed = True
+            if not self._prov_changed:
+                break
+        else:  # pragma: no cover
+            raise AnalysisError("value-origin fixed point did not converge")
+        self._orig_cache[key] = res
+        for k_, v_ in self._prov.items():
+            self._orig_cache.setdefault(k_, v_)
+        self._prov = {}
         return res
 
     def _origins(self, scope, e, depth):
@@ -922,7 +963,12 @@ class Model:
                 elif isinstance(par, ast.AnnAssign) and isinstance(par.target, ast.Name) and par.value is o[2]:
                     tgt = par.target.id
                 if tgt is not None and not (isinstance(e, ast.Name) and e.id == tgt and scope is o[1]):
-                    out |= self.elem_origins(o[1], ast.copy_location(ast.Name(id=tgt, ctx=ast.Load()), o[2]), depth + 1, for_subscript)
+                    # the synthetic Name node is kept alive for the life of the model: origins are cached by node identity,
+                    # and the identity of a freed temporary would be reused by the next one
+                    tkey = (id(o[1]), id(o[2]), tgt)
+                    if tkey not in self._tmp_nodes:
+                        self._tmp_nodes[tkey] = ast.copy_location(ast.Name(id=tgt, ctx=ast.Load()), o[2])
+                    out |= self.elem_origins(o[1], self._tmp_nodes[tkey], depth + 1, for_subscript)
             elif o[0] == "tuple":
                 for el in o[1]:
                     out |= el
